@@ -42,6 +42,17 @@ def sec_size_scale(emit):
         '(%d, %d)' % (ord(k), v) for k, v in scale.items()))
 
 
+def sec_time_scale(emit):
+    import importlib
+    utils = importlib.import_module('treadmill.utils')
+    scale = utils._TIME_SCALE      # pylint: disable=protected-access
+    assert all(isinstance(k, str) and len(k) == 1 and isinstance(v, int) and v >= 0
+               for k, v in scale.items())
+    emit('/-- `treadmill.utils._TIME_SCALE` as (code point of the suffix, seconds), dict order. -/')
+    emit('def timeScale : List (Nat × Nat) := [%s]' % ', '.join(
+        '(%d, %d)' % (ord(k), v) for k, v in scale.items()))
+
+
 def _load(name):
     with open(os.path.join(REPO_PY, 'treadmill', 'etc', 'schema', name)) as f:
         return json.load(f)
@@ -215,7 +226,8 @@ def sec_python(emit):
     import importlib
     from fw import LEAN_DIR
     utils = importlib.import_module('treadmill.utils')
-    meaningful = set(ord(x) for x in '+-_%') | set(ord(k) for k in utils._SIZE_SCALE)  # pylint: disable=W0212
+    meaningful = (set(ord(x) for x in '+-_%') | set(ord(k) for k in utils._SIZE_SCALE) |  # pylint: disable=W0212
+                  set(ord(k) for k in utils._TIME_SCALE))                                   # pylint: disable=W0212
     key = hashlib.sha1(repr((sys.version, unicodedata.unidata_version, sorted(meaningful),
                              open(__file__).read())).encode()).hexdigest()[:16]
     cache = os.path.join(LEAN_DIR, '.lake', 'pyfacts-%s.json' % key)
@@ -259,4 +271,4 @@ def sec_python(emit):
     emit('def intMaxStrDigits : Nat := %d' % lim)
 
 
-SECTIONS = [sec_size_scale, sec_schema, sec_api, sec_python]
+SECTIONS = [sec_size_scale, sec_time_scale, sec_schema, sec_api, sec_python]
